@@ -1,7 +1,7 @@
 (* EngineSpecProofs.v — the executable predicates of Spec/SpecEngine.v hold of every
    observation the model produces. *)
 From Flyt Require Import Base Script FlowTable Engine EngineCorr EngineFacts BaseFacts
-     Lifecycle LifecycleProofs SpecC18 SpecEngine C18Proofs.
+     Lifecycle LifecycleProofs SpecC18 SpecEngine C18Proofs C04Proofs.
 
 Lemma lrun_canc tbl : forall evs st canc st' canc',
     lrun tbl st canc evs = Some (st', canc') -> canc' = canc || existsb ev_cancel evs.
@@ -100,4 +100,75 @@ Proof.
   - destruct (run_precancelled _ _ _ _ _ _ _ _ Hc ltac:(rewrite Hd; exact I) E) as [-> [e [-> Hk]]].
     assert (evs = []) by (apply (app_inv_head (log s)); now rewrite app_nil_r, <- L).
     subst evs. cbn. now rewrite Hk.
+Qed.
+
+(* ------------------------------------------------------------ C18 on whole observations *)
+Lemma spec_C18_eobs sc : forall k s, spec_C18 sc (eobs_of_model (model_runs sc k s)) = true.
+Proof.
+  induction k as [|k IH]; intros s; cbn [model_runs eobs_of_model]; auto.
+  destruct (model_run sc s) as [[s' oc]|] eqn:E; cbn [eobs_of_model]; auto.
+  unfold spec_C18 in *. cbn [forallb]. rewrite (spec_C18_model_run _ _ _ _ E). apply IH.
+Qed.
+
+(* ------------------------------------------------------------ the specs on the model *)
+Lemma spec_lifecycle_model sc : spec_lifecycle sc (eobs_of_model (model_obs sc)) = true.
+Proof.
+  unfold spec_lifecycle. destruct (scen_full sc) eqn:Hf; auto.
+  unfold model_obs. change (es_precancel sc) with (cancelled (init_ms sc)). now apply spec_lc_model.
+Qed.
+
+Lemma spec_C01_model_lemma sc : spec_C01 sc (eobs_of_model (model_obs sc)) = true.
+Proof. unfold spec_C01. rewrite spec_lifecycle_model. apply spec_C18_eobs. Qed.
+
+Lemma spec_C02_model_lemma sc : spec_C02 sc (eobs_of_model (model_obs sc)) = true.
+Proof. apply spec_lifecycle_model. Qed.
+
+Lemma last_visible_snoc pre c r cn :
+  is_wait c = false -> last_visible (pre ++ [(c, r, cn)]) = Some (c, r, cn).
+Proof.
+  intros W. unfold last_visible. rewrite filter_app. cbn. rewrite W. cbn.
+  rewrite rev_app_distr. reflexivity.
+Qed.
+
+Lemma fail_last_ok_model o ce tbl fuel s n s' oc evs :
+  (forall c k st n s items s' rs, ce c k st n s items = (s', rs) -> ext s s') ->
+  run o ce tbl fuel s n = Some (s', oc) ->
+  log s' = log s ++ evs ->
+  fail_last_ok (cancelled s) evs (pair_of_outcome oc) = true.
+Proof.
+  intros Hce H L. destruct oc as [a|e]; cbn; auto.
+  pose proof (run_ext _ _ Hce _ _ _ _ _ _ H) as [evs' [L' C]].
+  assert (evs' = evs) by (apply (app_inv_head (log s)); now rewrite <- L, <- L'). subst evs'.
+  destruct (run_faillast _ _ Hce _ _ _ _ _ _ H) as [[Hr|Hr]|[[Hk Hc]|[pre [c [u [cn [L2 [W [S _]]]]]]]]].
+  - unfold class_of. now rewrite Hr.
+  - unfold class_of. now rewrite Hr.
+  - rewrite Hk. rewrite <- C, Hc. reflexivity.
+  - assert (evs = pre ++ [(c, RErr u, cn)]) by (apply (app_inv_head (log s)); now rewrite <- L, L2).
+    subst evs. unfold last_err_matches. rewrite (last_visible_snoc _ _ _ _ W). rewrite S.
+    destruct (class_of e); auto. now rewrite orb_true_r.
+Qed.
+
+Lemma spec_fail_last_model sc : forall k s,
+    spec_fail_last_runs (cancelled s) (eobs_of_model (model_runs sc k s)) = true.
+Proof.
+  induction k as [|k IH]; intros s; cbn [model_runs eobs_of_model spec_fail_last_runs]; auto.
+  destruct (model_run sc s) as [[s' oc]|] eqn:E; cbn [eobs_of_model spec_fail_last_runs]; auto.
+  unfold model_run in E.
+  pose proof (run_ext _ _ conc_unused_ext _ _ _ _ _ _ E) as [evs [L C]].
+  rewrite L, skipn_app_exact.
+  rewrite (fail_last_ok_model _ _ _ _ _ _ _ _ _ conc_unused_ext E L). cbn [andb].
+  rewrite <- C. apply IH.
+Qed.
+
+Lemma spec_C04_model_lemma sc : spec_C04 sc (eobs_of_model (model_obs sc)) = true.
+Proof.
+  unfold spec_C04. rewrite spec_lifecycle_model. cbn [andb].
+  unfold model_obs. change (es_precancel sc) with (cancelled (init_ms sc)). apply spec_fail_last_model.
+Qed.
+
+Lemma spec_C05_model_lemma sc : spec_C05 sc (eobs_of_model (model_obs sc)) = true.
+Proof.
+  unfold spec_C05. rewrite spec_lifecycle_model. cbn [andb].
+  destruct (scen_full sc) eqn:Hf; auto. destruct (root_known sc) eqn:Hr; auto. cbn [andb].
+  unfold model_obs. change (es_precancel sc) with (cancelled (init_ms sc)). now apply spec_C05_model.
 Qed.
